@@ -552,6 +552,8 @@ def replay(unit, obl):
 
 
 MUTANTS = [
+    dict(name="sum of two operands accumulated into the left operand's array", units=["CompositeParameter.__call__[array arguments, frame]"],
+         edits=[(M, "        return self.operator(*values)", "        if isinstance(values[0], np.ndarray) and self.operator is operator.add and np.shape(values[0]) == np.shape(values[0] + values[1]):\n            values[0] += values[1]\n            return values[0]\n        return self.operator(*values)")]),
     dict(name="ramp stays at the initial value until tmax", units=["sources.scaling"], edits=[(SC_, "    if t < tmin:\n        return initial", "    if t < tmax:\n        return initial")]),
     dict(name="ramp slope uses tmax as the origin", units=["sources.scaling"], edits=[(SC_, "(t - tmin) / (tmax - tmin)", "(t - tmax) / (tmax - tmin)")]),
     dict(name="LinearRamp is not time dependent", units=["sources.scaling"], edits=[(SC_, "        final=final,\n        time_dependent=True,", "        final=final,\n        time_dependent=False,")]),
